@@ -384,6 +384,18 @@ def systematic(thorough=False):
             defs.append({"apiKey": 2103 + ["TopDown", "BottomUp", "Mixed"].index(tag), "type": ty, "name": f"SysChain{tag}{ty.capitalize()}",
                          "validVersions": "0-1", "flexibleVersions": "1+", "commonStructs": chain(f"C{tag}", order),
                          "fields": [dict(anchor), {"name": "Groups", "type": f"[]C{tag}Group", "versions": "0+"}]})
+    # nullability windows that CLOSE before the field ends ("1-2" on a field present in 0-3), on every kind of field whose
+    # nullability the generator decides: the versions after the window are not nullable again
+    for ty in ("request", "response"):
+        defs.append({"apiKey": 2106, "type": ty, "name": f"SysNullableWindow{ty.capitalize()}", "validVersions": "0-3", "flexibleVersions": "2+",
+                     "commonStructs": [{"name": "SysWinShared", "versions": "0+", "fields": [dict(anchor)]}],
+                     "fields": [dict(anchor),
+                                {"name": "Cursor", "type": "WinCursor", "versions": "0+", "nullableVersions": "1-2", "fields": [dict(anchor)]},
+                                {"name": "Widgets", "type": "[]WinWidget", "versions": "0+", "nullableVersions": "1-2", "fields": [dict(anchor)]},
+                                {"name": "Late", "type": "WinLate", "versions": "1+", "nullableVersions": "2", "fields": [dict(anchor)]},
+                                {"name": "Title", "type": "string", "versions": "0+", "nullableVersions": "1-2"},
+                                {"name": "Blob", "type": "bytes", "versions": "0+", "nullableVersions": "2"},
+                                {"name": "Shared", "type": "[]SysWinShared", "versions": "0+", "nullableVersions": "1"}]})
     for ty in ("request", "response"):
         defs.append({"apiKey": 2102, "type": ty, "name": f"SysLateStart{ty.capitalize()}", "validVersions": "2-4", "flexibleVersions": "3+",
                      "fields": [dict(anchor), {"name": "Name", "type": "string", "versions": "0+"},
